@@ -358,7 +358,7 @@ func newTwin(w *dbWorld, root string, idx int) *dbWorld {
 
 // exec runs one operation on the real DB with the requested faults injected and
 // returns the canonical result string.
-// exec runs one operation with a watchdog: a call that has not returned after 20 s of real time
+// exec runs one operation with a watchdog: a call that has not returned after 60 s of real time
 // never will (every call is a few file operations); the history ends there, with that observation.
 func (w *dbWorld) exec(op dbOp) string {
 	ch := make(chan string, 1)
@@ -366,9 +366,9 @@ func (w *dbWorld) exec(op dbOp) string {
 	select {
 	case r := <-ch:
 		return r
-	case <-time.After(20 * time.Second):
+	case <-time.After(60 * time.Second):
 		w.hung = true
-		return "HANG:" + hx("the call did not return within 20 s")
+		return "HANG:" + hx("the call did not return within 60 s")
 	}
 }
 
